@@ -193,4 +193,18 @@ Inductive locale : str -> str -> option str -> Prop :=
     ascii_letter a = true -> ascii_letter b = true -> ascii_letter c = true -> ascii_letter d = true ->
     locale [a; b; 95; c; d] [a; b] (Some [c; d]).
 
+(* ------------------------------------------------------------ name and URL *)
+
+(* `scheme://host` or `scheme://host/rest`: the scheme alphabetic (and so without `://`
+   inside), the host not empty, without `/` and without white space *)
+Definition valid_url (alpha : N -> bool) (u : str) : Prop :=
+  exists scheme host rest,
+    u = scheme ++ [58; 47; 47] ++ host ++ rest
+    /\ forallb alpha scheme = true /\ alpha 58 = false
+    /\ host <> [] /\ ~ In 47 host /\ forallb (fun c => negb (uni_ws c)) host = true
+    /\ (rest = [] \/ exists r, rest = 47 :: r).
+
+(* the documented forms `Name <Url>` (also `<Url>`: empty name) followed by ASCII blanks *)
+Definition print_bracket (name url pad : str) : str := name ++ [60] ++ url ++ [62] ++ pad.
+
 End Doc.
